@@ -348,9 +348,13 @@ def _mono_one(res, spec_name, kind, cfg, dim, real, ne16, selftest, tier):
                     hi = 33 if dim.startswith('out') else 130
                     ex.assume(v2[dim] <= hi)
                 d2, _ = _dims(ex, kind, cfg, shared=v2)
-                c1 = _val(eval_cost(spec_name, kind, d1))
-                f1 = LAST_FN[0]
-                c2 = _val(eval_cost(spec_name, kind, d2))
+                try:
+                    c1 = _val(eval_cost(spec_name, kind, d1))
+                    f1 = LAST_FN[0]
+                    c2 = _val(eval_cost(spec_name, kind, d2))
+                except (AssertionError, ValueError, KeyError):
+                    # a description the model rejects (e.g. a 1-channel 1x1 conv matching the depthwise pattern of NE16): not a valid layer here
+                    raise st.Infeasible()
                 if LAST_FN[0] is not f1:
                     # the two descriptions match different patterns (a 1-channel groups=1 convolution is formally depthwise):
                     # monotonicity is claimed within one pattern only
@@ -416,22 +420,28 @@ def _mono_one(res, spec_name, kind, cfg, dim, real, ne16, selftest, tier):
     # NIA time-outs: the tested dimension stays symbolic, the others are enumerated on the boundary grids (linear queries)
     outcome = []
     need_grid = real
+    # NE16: w_theta_alpha (the share of channels at this precision) is enumerated: it multiplies and divides the channel count
+    thetas = [None] if not ne16 else ([Fraction(1), Fraction(1, 2)] if not real else [Fraction(1), Fraction(1, 3)])
     if not real:
-        f0 = {}
-        if kind == 'linear' or spec_name.startswith('params'):
-            f0 = {'out0': 1, 'out1': 1}
-        outcome = attempt(f0, 20000)
-        if any(o[0] == 'unknown' for o in outcome):
-            res.notes.append(f'{label}: all-symbolic (NIA) query unknown in 20 s -> other dimensions enumerated on boundary grids')
-            outcome = [o for o in outcome if o[0] == 'sat']
-            need_grid = True
+        for th_ in thetas:
+            f0 = {} if th_ is None else {'theta': th_}
+            if kind == 'linear' or spec_name.startswith('params'):
+                f0.update({'out0': 1, 'out1': 1})
+            o1 = attempt(f0, 20000)
+            if any(o[0] == 'unknown' for o in o1):
+                res.notes.append(f'{label}: all-symbolic (NIA) query unknown in 20 s -> other dimensions enumerated on boundary grids')
+                need_grid = True
+            outcome += [o for o in o1 if o[0] == 'sat']
     if need_grid:
-        for f in grid_points():
-            for o in attempt(f, Q):
-                if o[0] == 'unknown':
-                    res.inconclusive.append(f'{label}: unknown with {f} fixed')
-                else:
-                    outcome.append(o)
+        for th_ in thetas:
+            for f in grid_points():
+                if th_ is not None:
+                    f['theta'] = th_
+                for o in attempt(f, Q):
+                    if o[0] == 'unknown':
+                        res.inconclusive.append(f'{label}: unknown with {f} fixed')
+                    else:
+                        outcome.append(o)
     for kind_, name, a, b in outcome:
         if kind_ != 'sat':
             continue
@@ -480,8 +490,7 @@ def _bits_one(res, spec_name, kind, k, b1, b2, selftest):
         with SymMode():
             d1, v = _dims(ex, kind, cfg_of(b1))
             if spec_name == 'ne16_latency':
-                th = z3.Real('theta')
-                ex.assume(th > 0, th <= 1)
+                th = z3.RealVal(1)
                 v['theta'] = th
                 d1['theta'] = _t(th)
             d2, _ = _dims(ex, kind, cfg_of(b2), shared=v)
